@@ -714,6 +714,10 @@ func (e *exprCtx) expr(v ssa.Value) string {
 		if s, ok := e.flagPhi(x); ok {
 			return s
 		}
+		// a value chosen between alternatives says under which condition each one is taken (and min/max idioms say so)
+		if s, ok := e.selPhi(x); ok {
+			return s
+		}
 		// a counter that starts at 0 and is incremented by 1 per iteration (`for i := 0; …; i++`) is rendered like the
 		// index go/ssa synthesises for `for i := range s`, so that the two loop forms read alike
 		if len(x.Edges) == 2 {
@@ -800,6 +804,16 @@ func (e *exprCtx) call(c *ssa.CallCommon) string {
 	n := calleeName(c)
 	if n == "" {
 		n = "dyn:" + e.expr(c.Value)
+	}
+	// the min/max builtins read like the hand-written idioms (see selPhi)
+	if n == "builtin.min" || n == "builtin.max" {
+		var vs []string
+		for _, a := range callArgs(c) {
+			vs = append(vs, e.expr(a))
+		}
+		if len(vs) >= 2 {
+			return minMaxStr(strings.TrimPrefix(n, "builtin."), vs...)
+		}
 	}
 	// len(x[:k]) is k
 	if n == "builtin.len" {
@@ -3089,4 +3103,132 @@ func absorbAlts(alts [][]string) [][]string {
 		alts = keep
 	}
 	return alts
+}
+
+
+// selPhi renders a phi that is not loop-carried with the condition that selects each edge:
+//   sel{+(a < b)→x | +(b <= a)→y}
+// (the literals that hold on every path through that edge and not on every path into the block). The idioms
+// `m := a; if b < m { m = b }` and its mirror are min(a, b) / max(a, b), nested ones flatten, and the min/max builtins
+// render the same way. Without this a phi only lists its values: `if n < allowed` turned into `if n > allowed` would
+// read the same.
+var selCache = map[*ssa.Phi]string{}
+
+func (e *exprCtx) selPhi(x *ssa.Phi) (string, bool) {
+	if e.seen[x] || flagBusy[x] || len(x.Edges) != 2 {
+		return "", false
+	}
+	if !isIntegerT(x.Type()) {
+		return "", false
+	}
+	if r, ok := selCache[x]; ok {
+		return r, r != ""
+	}
+	r, ok := e.selPhi1(x)
+	if !ok {
+		r = ""
+	}
+	selCache[x] = r
+	return r, ok
+}
+
+func (e *exprCtx) selPhi1(x *ssa.Phi) (string, bool) {
+	blk := x.Block()
+	for k, ed := range x.Edges {
+		if ed == ssa.Value(x) || k >= len(blk.Preds) || blk.Dominates(blk.Preds[k]) {
+			return "", false
+		}
+	}
+	flagBusy[x] = true
+	defer delete(flagBusy, x)
+	e.seen[x] = true
+	defer delete(e.seen, x)
+	common := map[string]bool{}
+	for _, g := range e.c.guardStrs(blk) {
+		common[g] = true
+	}
+	type arm struct {
+		lits []string
+		val  string
+		v    ssa.Value
+	}
+	var arms []arm
+	for k, ed := range x.Edges {
+		if !edgeLive(blk.Preds[k], blk) {
+			continue
+		}
+		var lits []string
+		for _, g := range e.c.pathEdgeGuards(blk.Preds[k], blk) {
+			if !common[g] {
+				lits = append(lits, g)
+			}
+		}
+		sort.Strings(lits)
+		arms = append(arms, arm{uniq(lits), e.expr(ed), ed})
+	}
+	if len(arms) < 2 {
+		return "", false
+	}
+	anyLit := false
+	for _, a := range arms {
+		if len(a.lits) > 0 {
+			anyLit = true
+		}
+	}
+	if !anyLit {
+		return "", false
+	}
+	// min / max
+	if len(arms) == 2 && len(arms[0].lits) == 1 && len(arms[1].lits) == 1 {
+		a, b := arms[0], arms[1]
+		for i := 0; i < 2; i++ {
+			// arm a is taken under `a.val < b.val` or `a.val <= b.val` and arm b under the complement: min; mirrored: max
+			if l, op, r, ok := splitCmp(strings.TrimPrefix(a.lits[0], "+")); ok && strings.HasPrefix(a.lits[0], "+") && negGuard(a.lits[0]) == b.lits[0] {
+				if (op == "<" || op == "<=") && l == a.val && r == b.val {
+					return minMaxStr("min", a.val, b.val), true
+				}
+				if (op == "<" || op == "<=") && l == b.val && r == a.val {
+					return minMaxStr("max", a.val, b.val), true
+				}
+			}
+			a, b = b, a
+		}
+	}
+	// (a general rendering of every phi with its selecting conditions was tried and dropped: conditions mention phis
+	// that mention conditions, and the strings explode; what remains path-insensitive is said in DESIGN.md)
+	return "", false
+}
+
+// minMaxStr flattens nested min/max of the same kind and orders the operands.
+func minMaxStr(kind string, vals ...string) string {
+	var flat []string
+	for _, v := range vals {
+		if strings.HasPrefix(v, kind+"(") && strings.HasSuffix(v, ")") {
+			flat = append(flat, splitTop(v[len(kind)+1:len(v)-1])...)
+		} else {
+			flat = append(flat, v)
+		}
+	}
+	sort.Strings(flat)
+	return kind + "(" + strings.Join(uniq(flat), ", ") + ")"
+}
+
+// splitTop splits "a, b, c" at top-level commas.
+func splitTop(s string) []string {
+	var out []string
+	depth, from := 0, 0
+	for i := 0; i < len(s); i++ {
+		switch s[i] {
+		case '(', '[', '{':
+			depth++
+		case ')', ']', '}':
+			depth--
+		case ',':
+			if depth == 0 {
+				out = append(out, strings.TrimSpace(s[from:i]))
+				from = i + 1
+			}
+		}
+	}
+	return append(out, strings.TrimSpace(s[from:]))
 }
